@@ -289,6 +289,20 @@ def dropped_partition_rule(R):
     hd = closure_in(R, TR + '::handle_dropped_exchange', ['Sessions::get_exch'])
     preds = [b for b in F.nested(TR + '::handle_dropped_exchange') if b.kind == 'closure' and 'transport::exchange::Role::is_dropped_state' in b.calls_summary]
     R.floor('dropped-exchange predicates', len(preds), 2)
+    # "... the exchange is closed (with an acknowledgement or a session close as required)": write_evict_session_packet REMOVES the
+    # session before it writes the CloseSession - the packet has to be encoded there and then (encode = true); left for process_tx it can no
+    # longer be encoded (no such session) and is dropped: the session is closed locally and the peer is never told
+    WE = TR + '::write_evict_session_packet'
+    we = R.body(WE)
+    rm_first = bool(we.calls('transport::session::Sessions::remove'))
+    for b_ in [x for x in F.bodies.values() if x.focus and '::tests::' not in x.fn and WE in x.calls_summary]:
+        for t in b_.calls(WE):
+            a = t.d['a'][4]
+            const = a.get('k', {}).get('v') if 'k' in a else None
+            fwd = any(x[0] == 'arg' for x in prims.sources(b_, a)) if const is None else False
+            R.expect('P6', b_.fn, 'the CloseSession of a session removed on the spot is encoded on the spot (encode = true)', (const == 1 or fwd) and rm_first,
+                     'encode = true' if const == 1 else 'encode forwarded from the caller\'s parameter',
+                     f'write_evict_session_packet(.., encode = {bool(const)}) at {b_.where(t.bb)}: the session is gone when process_tx looks it up to encode the packet - the CloseSession is never sent', b_.where(t.bb))
     pol = []
     for pb in preds:
         extra = sorted(c for c in pb.calls_summary if c.startswith('transport::') and c not in ('transport::exchange::Role::is_dropped_state', 'transport::mrp::ReliableMessage::is_retrans_pending'))
